@@ -67,6 +67,16 @@ def cases():
     o('named-with-intents', '  t = 0.\n  !$loki outline name(myreg) in(b) inout(a,s) out(t)\n  do i=1,n\n    a(i) = a(i)*s + b(i)\n  end do\n  t = a(1)\n  s = s + 1.0\n  !$loki end outline')
     o('two-regions', '  !$loki outline\n  tmp = s + 1.0\n  !$loki end outline\n  a(1) = tmp\n  !$loki outline\n  t = tmp*2.0 + a(1)\n  !$loki end outline\n  s = t')
     o('call-inside', '  t = 0.\n  !$loki outline\n  call helper(n, a, s)\n  t = a(1)\n  !$loki end outline\n  s = t + a(n)', extra=HELP)
+    COMB = """
+subroutine combine(p, q, r)
+  real, intent(in) :: p, q
+  real, intent(inout) :: r
+  r = p*q + 1.0
+end subroutine combine
+"""
+    o('pragma-narrows-inout-to-out', '  tmp = b(1)\n  !$loki outline name(reg1) in(tmp,s) out(t)\n  call combine(tmp, s, t)\n  w(1) = 2.0*t + tmp\n  !$loki end outline\n  a(1) = t + w(1)', extra=COMB)
+    o('pragma-out-plus-derived-out', '  tmp = b(2)\n  !$loki outline in(tmp) out(s)\n  call combine(tmp, tmp, s)\n  t = 2.0*s + tmp\n  !$loki end outline\n  a(1) = s\n  a(2) = t', extra=COMB)
+    o('pragma-in-for-derived-inout', '  t = 1.0\n  !$loki outline in(s) inout(t)\n  t = t + s\n  tmp = t*2.0\n  !$loki end outline\n  a(1) = tmp + t')
     o('conditional-write', '  t = 5.0\n  !$loki outline\n  if (s > 0.) then\n    t = s\n  end if\n  !$loki end outline\n  a(1) = t')
     o('region-in-loop', '  t = 0.\n  do j=1,2\n    !$loki outline\n    do i=1,n\n      a(i) = a(i) + j*b(i)\n    end do\n    t = t + a(j)\n    !$loki end outline\n  end do')
     EXT = """
